@@ -650,6 +650,12 @@ def plan_C19(rep, seed, tier):
     rv(rep, binp, 'dec-bom', seed, tier, extra=['--latin1', '--twins', '--thin', '4' if tier == 'quick' else '1'], tag='dec-bom-latin1')
     rv(rep, binp, 'dec-random', seed, tier, extra=['--latin1', '--twins'], tag='dec-random-latin1')
     rv(rep, binp, 'dec-cutsets', seed, tier, extra=['--latin1', '--twins', '--thin', '2' if tier == 'quick' else '1'], tag='dec-cutsets-latin1')
+    lat = [MC_CHUNKING_QUICK[i] for i in (5, 7, 10, 11)] + [MC_BOM_QUICK[i] for i in (0,)]
+    if tier == 'thorough':
+        lat = MC_CHUNKING_THOROUGH + MC_BOM_THOROUGH
+    run_mc_set(rep, binp, lat, 'Layer I incl. Decoder::latin1_byte_compatible_up_to (ImplDecoder!DecoderLatin1: life-cycle arms, in_neutral_state per variant): the query '
+               'precedes every call in every reachable state and is judged by the monitor (NoViolation); replay compares the real answer with the model\'s',
+               module='MC_Dec')
     rep.cov['rule'] = ('latin1_byte_compatible_up_to asked before every call of BOM-matrix, cut-set and random histories (mid-sequence, BOM pending, after OutputFull / Malformed), '
                        'judged against the Standard decoder state at the consumed position; twins without the queries must produce identical results')
 
